@@ -453,6 +453,20 @@ func c08Run(w *core.W) {
 			}
 		}
 	}
+	// (4c) `or` lists whose items share a type name and differ in their other rules
+	sameType := []string{`{type: "integer", min: 0}`, `{type: "integer", max: -10}`, `{type: "float", min: 10}`, `{type: "float", max: 3}`, `{type: "string", maxLength: 3}`,
+		`{type: "string", regex: "^[0-9]+$"}`, `{type: "enum", enum: ["a"]}`, `{type: "enum", enum: ["b", 7]}`, `"integer"`, `"string"`, `{type: "decimal", precision: 1}`, `{type: "decimal", precision: 3, min: 100}`}
+	for _, a := range sameType {
+		for _, b := range sameType {
+			for _, exv := range []string{`-20`, `5`, `7`, `2.5`, `20.5`, `100.125`, `"12345"`, `"ab"`, `"b"`, `"a"`} {
+				for _, wrap := range []string{"%s", "{\n\t\"k\": %s\n}"} {
+					if mine() {
+						c08Case(w, &project{Root: fmt.Sprintf(wrap, exv+" // {or: ["+a+", "+b+"]}")}, "or-same-type-items")
+					}
+				}
+			}
+		}
+	}
 	// (5b) key shortcuts whose type example needs escaping inside the key
 	for _, kt := range []string{`"ab\""`, `"\"ab"`, `"a\\"`, `"\"\""`, `"a\nb"`, `"\u0041\""`, `""`} {
 		for _, body := range []string{"{\n\t@k: 1\n}", "{\n\t\"p\": 0,\n\t@k: \"v\"\n}", "[\n\t{\n\t\t@k: 1\n\t}\n]"} {
